@@ -310,14 +310,14 @@ func (li *LockInfo) classify(v ssa.Value, depth int) (LockClass, bool) {
 		// element of a slice/array of mutexes: shard class
 		return "S", true
 	case *ssa.Global:
-		return LockClass("G:" + x.Pkg.Pkg.Path() + "." + x.Name()), true
+		return LockClass("G:" + x.Pkg.Pkg.Path() + "." + gname(x)), true
 	case *ssa.UnOp:
 		// load of a *sync.Mutex-typed field or variable
 		if fa, ok := x.X.(*ssa.FieldAddr); ok {
 			return LockClass("F:" + fieldKeyOf(fa.X, fa.Field)), true
 		}
 		if g, ok := x.X.(*ssa.Global); ok {
-			return LockClass("G:" + g.Pkg.Pkg.Path() + "." + g.Name()), true
+			return LockClass("G:" + g.Pkg.Pkg.Path() + "." + gname(g)), true
 		}
 		if fv, ok := x.X.(*ssa.FreeVar); ok {
 			if b := freeVarBinding(fv); b != nil {
